@@ -54,7 +54,9 @@ def check_hits(A, name, P, R, F, Tm, n, m, beta=1.0):
         A.require(C.exists_matching(Tm, k), name + ':a-matching-of-size-k-exists')
         A.require(C.no_larger_matching(Tm, k), name + ':no-larger-matching-exists')
     else:
-        A.require(C.max_matching_size([[bool(x) for x in row] for row in Tm]) == k, name + ':k==maximum-matching-size')
+        mx = C.max_matching_size([[bool(x) for x in row] for row in Tm])
+        A.require(mx >= k, name + ':a-matching-of-size-k-exists')
+        A.require(mx <= k, name + ':no-larger-matching-exists')
     if S.is_sym(beta):
         A.require(A.eq(F * (beta * beta * P + R), (1 + beta * beta) * P * R) if (P or R) else A.eq(F, 0), name + ':F==beta-formula')
     else:
@@ -85,7 +87,9 @@ def job_event_f(which, size):
                 A.require(C.exists_matching(Tm, k), which + ':a-matching-of-size-k-exists')
                 A.require(C.no_larger_matching(Tm, k), which + ':no-larger-matching-exists')
             else:
-                A.require(C.max_matching_size([[bool(x) for x in row] for row in Tm]) == k, which + ':k==maximum-matching-size')
+                mx = C.max_matching_size([[bool(x) for x in row] for row in Tm])
+                A.require(mx >= k, which + ':a-matching-of-size-k-exists')
+                A.require(mx <= k, which + ':no-larger-matching-exists')
         else:
             F, P, R = res
             check_hits(A, which, P, R, F, Tm, n, m)
